@@ -598,7 +598,8 @@ DescNonFinite(d) ==
 =============================================================================
    Part 2.  Implementation-shaped model: showInJS / showInJSON (renderer.go), jsStringEscape
    (escapers.go), showTimeInJS, parseTagValue, isEmptyValue - transcribed branch by branch,
-   AS FOUND.  NonFiniteFix = TRUE transcribes the proposed fix instead (see checks/c08.py).
+   AS FOUND.  The parameter fix = TRUE transcribes the proposed fix of the non-finite floats instead
+   (JavaScript: NaN, Infinity, -Infinity; JSON: null).
    ===================================================================================== *)
 HexChar(n) == IF n < 10 THEN 48 + n ELSE 87 + n
 U4(c) == <<92, 117>> \o <<HexChar(c \div 4096), HexChar((c \div 256) % 16), HexChar((c \div 16) % 16), HexChar(c % 16)>>
